@@ -104,11 +104,15 @@ D_VerifySucceeds(in) ==
 (*        digest reference resolves to a plain descriptor)                 *)
 (***************************************************************************)
 ResolvedAnnotated(art, ref) == art.annotated /\ (art.store = "mem" \/ ref \in {"tag", "fullTag"})
-SStart(art, refs, call) == [art |-> art, refs |-> refs, call |-> call, pc |-> "resolve", toSign |-> "none", signed |-> "none",
-                            subject |-> "none", ann |-> "none", ok |-> FALSE, why |-> "", callerMeta |-> call.meta]
+(* call.opt: the signing options - "ok", or unusable in one way (negative or sub-second expiry duration, empty or unknown    *)
+(* signature media type, no signer, no repository): refused before the repository is asked anything                       *)
+BadOpts == {"negExpiry", "subSecondExpiry", "emptyMediaType", "unknownMediaType", "nilSigner", "nilRepo"}
+SStart(art, refs, call) == [art |-> art, refs |-> refs, call |-> call, pc |-> "validate", toSign |-> "none", signed |-> "none",
+                            subject |-> "none", ann |-> "none", ok |-> FALSE, why |-> "", callerMeta |-> call.meta, asked |-> FALSE]
 SRefuse(s, why) == [s EXCEPT !.pc = "done", !.ok = FALSE, !.why = why]
 SStep(s) ==
-  CASE s.pc = "resolve" -> [s EXCEPT !.pc = "pin"]
+  CASE s.pc = "validate" -> IF s.call.opt \in BadOpts THEN SRefuse(s, "bad-options") ELSE [s EXCEPT !.pc = "resolve"]
+    [] s.pc = "resolve" -> [s EXCEPT !.pc = "pin", !.asked = TRUE]
     [] s.pc = "pin"     -> IF s.call.ref = "mismatch" THEN SRefuse(s, "digest-mismatch") ELSE [s EXCEPT !.pc = "merge"]
     [] s.pc = "merge"   -> \* works on a copy: art is not touched
          IF s.call.meta = "reserved" THEN SRefuse(s, "reserved-prefix")
@@ -123,10 +127,10 @@ SRun(s) == IF s.pc = "done" THEN s ELSE SRun(SStep(s))
 (* what the caller and an observer of the repository see after one call *)
 SObs(s0, s) == [ok |-> s.ok, signedOK |-> s.ok => s.signed = "resolved+meta", subjectOK |-> s.ok => s.subject = "resolved",
                 annOK |-> s.ok => s.ann = "thumbprints+time", pushed |-> s.refs - s0.refs,
-                artSame |-> s.art = s0.art, callerSame |-> s.callerMeta = s0.callerMeta]
+                artSame |-> s.art = s0.art, callerSame |-> s.callerMeta = s0.callerMeta, asked |-> s.asked]
 
 (* a colliding key only collides when the artifact carries that annotation *)
-D_SignSucceeds(art, call) == call.ref # "mismatch" /\ call.meta # "reserved" /\ ~(call.meta = "colliding" /\ ResolvedAnnotated(art, call.ref))
+D_SignSucceeds(art, call) == call.opt \notin BadOpts /\ call.ref # "mismatch" /\ call.meta # "reserved" /\ ~(call.meta = "colliding" /\ ResolvedAnnotated(art, call.ref))
 
 RECURSIVE SRunCalls(_, _, _, _)
 SRunCalls(art, refs, calls, i) ==
